@@ -358,6 +358,12 @@ class Summariser:
                 except _Infeasible:
                     continue
                 val = csubst(h.ret, m) if h.ret is not None else mk('const', 0)
+                # out-parameters of the helper: &local is set by the callee
+                for a in c.a[1]:
+                    if a is not None and a.k == 'addr' and a.a[0] is not None and \
+                            a.a[0].k == 'var':
+                        st2.env.pop(a.a[0].a[0], None)
+                        st2.ver[a.a[0].a[0]] = st2.tick()
                 # replace the call node by the value inside r
                 r2, calls2 = self._replace(r, calls, i, val)
                 self.expanded.setdefault(fn, set()).add(name)
